@@ -51,7 +51,8 @@ def program_strategy(tier):
                          "clear": draw(st.booleans()),
                          "dbl": draw(st.lists(st.booleans(), min_size=40, max_size=40))})
         return {"drop": draw(st.booleans()), "double": draw(st.sampled_from(["none", "all", "random"])),
-                "captions": caps, "offset": draw(st.sampled_from(OFFSETS))}
+                "captions": caps, "offset": draw(st.sampled_from(OFFSETS)),
+                "reuse": draw(SP.reuse_strategy())}
     return build()
 
 
@@ -127,8 +128,11 @@ def check_program(case, rec):
     scr, flash = expected(case, lines)
     if not scr:
         return
+    reader = SP.used_reader(case.get("reuse"), doc)
+    if case.get("reuse"):
+        rec.label("reused-reader:" + case["reuse"][0])
     try:
-        cs = SCCReader().read(doc, offset=case["offset"]) if case["offset"] else SCCReader().read(doc)
+        cs = reader.read(doc, offset=case["offset"]) if case["offset"] else reader.read(doc)
     except CaptionReadTimingError as e:
         require(flash, lambda: f"CaptionReadTimingError ({e}) although no caption is displayed for less than 0.05 s: {doc}")
         rec.label("flash-rejected")
